@@ -361,7 +361,13 @@ def trace_for(s, res, ob, tier):
         if isinstance(o, dict) and "result" in o:
             for r in o["result"]:
                 if r.get("property") == ob["name"] and "trace" in r:
+                    started = False
                     for st in r["trace"]:
+                        if not started:
+                            if st.get("sourceLocation", {}).get("function", "") == s.get("harness"):
+                                started = True
+                            else:
+                                continue
                         if st.get("stepType") == "assignment" and not st.get("hidden"):
                             if st.get("sourceLocation", {}).get("function", "") in ("__CPROVER_initialize", "__CPROVER__start"):
                                 continue
